@@ -162,6 +162,18 @@ impl ConnectionLimits {
     }
 }
 
+// Verification hooks (runtime-monitoring harness only).
+#[cfg(feature = "verif")]
+impl ConnectionLimits {
+    /// `(incoming, outgoing)` connections currently counted.
+    pub fn verif_counts(&self) -> (usize, usize) {
+        (
+            self.incoming_connections.len(),
+            self.outgoing_connections.len(),
+        )
+    }
+}
+
 #[cfg(test)]
 mod tests {
     use super::*;
